@@ -131,11 +131,16 @@ class Ctx:
         self.notes = {}            # free-form informational lists
 
     # -- enumeration bookkeeping
-    def want(self, cid):
-        return self.only is None or cid == self.only
+    def want(self, cid, walk=False):
+        """False if this case is filtered out by a replay.  walk=True is for graph explorations whose later
+        states are only reachable by executing earlier transitions: the transition is executed but nothing is
+        recorded for it unless it is the replayed case"""
+        return self.only is None or walk or cid == self.only
 
     def case(self, cid, key=None, trivial=False, n=1):
         """register n executed evaluations for case cid; key identifies the concrete input"""
+        if self.only is not None and cid != self.only:
+            return
         self.evals += n
         if not trivial:
             self.keys.add(hash(key if key is not None else cid))
@@ -155,6 +160,8 @@ class Ctx:
 
     # -- verdicts
     def fail(self, cid, site, kind, params, detail=''):
+        if self.only is not None and cid != self.only:
+            return
         v = {'property': self.prop, 'case': cid, 'site': site, 'kind': kind,
              'params': {k: _plain(x) for k, x in params.items()}, 'detail': str(detail)[:600]}
         for k in self.known:
@@ -297,7 +304,7 @@ def run_property(prop, tier, seed, only=None, jobs=None):
     limit = getattr(mod, 'SHARD_LIMIT', {}).get(tier, 900 if tier == 'quick' else 7200)
     jobs = jobs or int(os.environ.get('VERIF_JOBS', '16'))
     work = [(modname, tier, seed, only, i, s, limit) for i, s in enumerate(shards)]
-    if jobs == 1 or len(work) == 1 or only is not None:
+    if jobs == 1 or len(work) == 1:
         results = [_worker(w) for w in work]
     else:
         with mp.get_context('fork').Pool(min(jobs, len(work))) as pool:
